@@ -218,6 +218,11 @@ Definition mhstep (c : actx) (st : mstate) (op : hop) : mstate * hans :=
           end
       end
   | ODisturb _ => (st, HUnit)       (* stream.seek(pos): every read of the three classes seeks first *)
+  | OCopy o =>          (* the copy carries the same __init__ fields (and a copy of the same bytes) *)
+      match nth_error (m_objs st) o with
+      | None => (st, HBad)
+      | Some _ => (st, HUnit)
+      end
   end.
 
 Fixpoint mrun (c : actx) (st : mstate) (h : list hop) : list hans :=
@@ -321,6 +326,10 @@ Definition estep (img : list Z) (le : bool) (sh_offset sh_size : Z) (st : einfo)
       | Some o => (st, EAMnem (Some (d_items o)))
       | None => (st, EABad)
       end
+  | ECopyInfo => (st, EAUnit)       (* __dict__ is copied: _num_entry travels with the object; EHABIStructs is rebuilt
+                                       from the same little_endian *)
+  | EReopen =>          (* EHABIInfo.__init__: self._num_entry = None; entries and decoders handed out stay alive *)
+      (mkEInfo None (ei_entries st) (ei_decoders st), EAUnit)
   end.
 
 Fixpoint erun (img : list Z) (le : bool) (sh_offset sh_size : Z) (st : einfo) (h : list eop) : list eans :=
